@@ -547,6 +547,12 @@ func (p *Parser) parseBuffer(buf []byte, last bool) (err error) {
 			p.addToken(off)
 		case tokenColon:
 			p.addToken(off)
+			if p.mode != colonMap {
+				// The token was not a key, the colon is looked at again in
+				// the next mode as it is when the token is scanned in one go.
+				off--
+				break
+			}
 			p.mode = valueMap
 		case tokenNlColon:
 			p.addToken(off)
